@@ -20,6 +20,16 @@ CLAIMED = {
          "trusted: refmap (reference model, Tiny v2 reader/writer written from the format description), SimReader/SimWriter, std BufReader/BufWriter; values restricted to what Tiny v2 can carry (DESIGN appendix C)",
          "DESIGN.md section 4 C03"),
 }
+CLAIMED["C04"] = ("exploration",
+ "deterministic simulation: edit histories whose diffs travel as .tinydiff text through simulated readers / tmpfs files, with delivery faults (drop, duplicate, reorder, wrong base, inconsistent text) and media faults, judged step by step by a reference diff/apply model",
+ "Seeded search over (history S0..Sk, delivery sequence, text style, reader schedule, one history or media fault). T0: real diff equals reference diff, apply(diff(A,B),A)=B in memory and through text. Every delivered step: real and reference both refuse, or both produce the same set; real Ok where the reference refuses is reported (accepted-inconsistent-diff). T1: reader schedules do not change the parsed diff. T2: Ok on a damaged text must equal the reference reading of the delivered bytes. Sampling, not proof.",
+ "trusted: refdiff (reference diff/apply and .tinydiff reader/writer), refmap, SimReader, SimDir; workload restricted to sets a diff can express (every entry named in the target namespace, parameters without source name)",
+ "DESIGN.md section 4 C04")
+CLAIMED["C12"] = ("exploration",
+ "deterministic simulation: Enigma stream API over simulated Read/Write media and the Enigma directory on a simulated disk (tmpfs scratch dir: drawn creation order, crash after k files with a torn last file, truncation, bit flip, vanished and stray files, heal), judged by a reference Enigma reader/writer and mapping-set model",
+ "Seeded search over (mapping set within the Enigma proviso, insertion orders, writer/reader schedules, directory scenario, one fault). T0: text read by an independent reader equals the model; real round trip (stream and directory) equals the model; write_one per root concatenates to write_all; one file per root; two writes give identical trees. T1: schedules and creation order change nothing. T2: writer Err leaves a prefix, Ok means complete; a read that succeeds on a damaged stream/tree equals the reference reading of what is there; after heal the answer is the model again. Sampling, not proof.",
+ "trusted: refmap Enigma reader/writer, SimReader/SimWriter, SimDir (tmpfs; listing order = reverse creation order on this kernel), walkdir; workload restricted to what Enigma can carry (see evidence assumptions)",
+ "DESIGN.md section 4 C12")
 PENDING = {}  # id -> reason (claimed in DESIGN.md but the check is not built yet)
 
 def main():
